@@ -1033,7 +1033,7 @@ func c12All(sink *vlib.Out, emit c12Emit) {
 	}
 
 	// 3. random cases (0 % / 100 % only: the gate draw is then irrelevant) + twin runs for forged fields
-	N := vlib.Budget(6000, 120000)
+	N := vlib.Budget(30000, 400000)
 	for i := 0; i < N; i++ {
 		r := vlib.NewRand(fmt.Sprintf("C12/random/%d", i))
 		c := c12Random(r)
@@ -1055,7 +1055,7 @@ func c12All(sink *vlib.Out, emit c12Emit) {
 	}
 
 	// 4. intermediate percentages: the gate draw is unknown, so oracle only
-	M := vlib.Budget(1500, 30000)
+	M := vlib.Budget(6000, 80000)
 	for i := 0; i < M; i++ {
 		r := vlib.NewRand(fmt.Sprintf("C12/pct/%d", i))
 		c := c12Random(r)
